@@ -132,6 +132,41 @@ Proof.
 Qed.
 
 (** ** statement *)
+(** the correction alone, for *any* rounded cells (however their sum of draws was accumulated -- serially or
+    by a parallel reduction): one cell per entry, exact total, zero cells stay zero *)
+Definition C16_correction_stmt : Prop :=
+  forall (p : list R) (raw : list N) (count q_mask : N) (cells : list N),
+    length raw = length p ->
+    correct_cells Rops p raw count q_mask = Some cells ->
+    length cells = length p /\
+    ((exists x, In x p /\ (0 < x)%R) -> sumN cells = count) /\
+    (forall i, nth i p 0%R = 0%R -> nth i raw 0 = 0 -> nth i cells 0 = 0).
+
+Lemma C16_correction_proof : C16_correction_stmt.
+Proof.
+  intros p raw count q_mask cells Hrl H. unfold correct_cells in H.
+  destruct (N.ltb_spec (sumN raw) count) as [L|L].
+  - injection H as <-.
+    set (d := count - sumN raw). set (P := N.max (count_pos Rops p) 1).
+    destruct (add_deficit_spec raw p (d / P) (d mod P) 0 Hrl) as [H1 [H2 H3]].
+    repeat split.
+    + rewrite H1. exact Hrl.
+    + intro Hex. apply count_pos_exists in Hex.
+      assert (HP : P = count_pos Rops p) by (unfold P; lia).
+      rewrite H2. unfold below. rewrite N.add_0_l, N.min_0_r, N.sub_0_r, <- HP.
+      assert (Hmod : d mod P < P) by (apply N.mod_lt; lia).
+      rewrite N.min_l by lia.
+      generalize (N.div_mod d P). intro Hdm. rewrite (N.mul_comm (d / P)). unfold d in *. lia.
+    + intros i Hp Hn. rewrite H3; [exact Hn|].
+      unfold posb. cbn [fltb f0 Rops]. unfold R_ltb. rewrite Hp. destruct (Rlt_dec 0 0); [lra|reflexivity].
+  - destruct (N.ltb_spec count (sumN raw)) as [G|G].
+    + apply remove_surplus_spec in H. destruct H as [H1 [H2 H3]]. repeat split.
+      * rewrite H1. exact Hrl.
+      * intros _. lia.
+      * intros i Hp Hn. apply H3. exact Hn.
+    + injection H as <-. repeat split; [exact Hrl|intros _; lia|intros i _ Hn; exact Hn].
+Qed.
+
 Definition C16_histogram_stmt : Prop :=
   forall (p nv : list R) (count q_mask : N) (cells : list N),
     length p = length nv ->
@@ -146,28 +181,7 @@ Definition C16_histogram_stmt : Prop :=
 Lemma C16_histogram_proof : C16_histogram_stmt.
 Proof.
   intros p nv count q_mask cells Hl H. unfold sample_cells in H.
-  set (raw := raw_cells Rops p nv count) in *.
-  assert (Hrl : length raw = length p) by (apply raw_cells_length; exact Hl).
-  assert (Hz : forall i, nth i p 0%R = 0%R -> nth i nv 0%R = 0%R -> nth i raw 0 = 0)
-    by (intros; apply raw_cells_zero; assumption).
-  destruct (N.ltb_spec (sumN raw) count) as [L|L].
-  - injection H as <-.
-    set (d := count - sumN raw). set (P := N.max (count_pos Rops p) 1).
-    destruct (add_deficit_spec raw p (d / P) (d mod P) 0 Hrl) as [H1 [H2 H3]].
-    repeat split.
-    + rewrite H1. exact Hrl.
-    + intro Hex. apply count_pos_exists in Hex.
-      assert (HP : P = count_pos Rops p) by (unfold P; lia).
-      rewrite H2. unfold below. rewrite N.add_0_l, N.min_0_r, N.sub_0_r, <- HP.
-      assert (Hmod : d mod P < P) by (apply N.mod_lt; lia).
-      rewrite N.min_l by lia.
-      generalize (N.div_mod d P). intro Hdm. rewrite (N.mul_comm (d / P)). unfold d in *. lia.
-    + intros i Hp Hn. rewrite H3; [apply Hz; assumption|].
-      unfold posb. cbn [fltb f0 Rops]. unfold R_ltb. rewrite Hp. destruct (Rlt_dec 0 0); [lra|reflexivity].
-  - destruct (N.ltb_spec count (sumN raw)) as [G|G].
-    + apply remove_surplus_spec in H. destruct H as [H1 [H2 H3]]. repeat split.
-      * rewrite H1. exact Hrl.
-      * intros _. lia.
-      * intros i Hp Hn. apply H3. apply Hz; assumption.
-    + injection H as <-. repeat split; [exact Hrl|intros _; lia|exact Hz].
+  assert (Hrl : length (raw_cells Rops p nv count) = length p) by (apply raw_cells_length; exact Hl).
+  destruct (C16_correction_proof p _ count q_mask cells Hrl H) as [A [B C]].
+  split; [exact A|split; [exact B|]]. intros i Hp Hn. apply C; [exact Hp|]. apply raw_cells_zero; assumption.
 Qed.
